@@ -272,6 +272,8 @@ impl Display for Format<'_, BinaryConnective> {
 impl Precedence for Format<'_, Formula> {
     fn precedence(&self) -> usize {
         match self.0 {
+            // a chained comparison is rendered as a conjunction
+            Formula::AtomicFormula(AtomicFormula::Comparison(c)) if c.guards.len() > 1 => 3,
             Formula::AtomicFormula(_) => 0,
             Formula::UnaryFormula { .. } => 1,
             Formula::QuantifiedFormula { .. } => 2,
@@ -285,6 +287,7 @@ impl Precedence for Format<'_, Formula> {
 
     fn mandatory_parentheses(&self) -> bool {
         match self.0 {
+            Formula::AtomicFormula(AtomicFormula::Comparison(c)) if c.guards.len() > 1 => true,
             Formula::AtomicFormula(_) | Formula::QuantifiedFormula { .. } => false,
             Formula::UnaryFormula { .. } | Formula::BinaryFormula { .. } => true,
         }
